@@ -12,6 +12,7 @@ From Verif Require Import Lib.Params Lib.Words Lib.NumberTheory Model.FfLimbs
   Model.AsmSem Proofs.AsmProofs.
 From Verif Require Proofs.GapField.
 From Verif Require Gen.FfRoutines Gen.FfAsm.
+From Verif Require Lib.Words Lib.GoGlue Gen.FfGlue Gen.FfgGlue Proofs.FfGlueEq Proofs.FfgGlueEq Model.FfLimbs Model.FfgLimbs Model.FfConv Model.FfgConv.
 Import ListNotations.
 Local Open Scope Z_scope.
 
@@ -269,6 +270,25 @@ Theorem C05_div_by_zero : forall x y, canon x -> canon y -> mval y = 0 ->
   exists z, div x y = Some z /\ mval z = 0.
 Proof. exact GapField.ff_div_by_zero. Qed.
 
+(* ---- the element-level GLUE of the Go source (loops, calls, math/big conversions): tools/limbgen
+   re-translates these functions at every run (Gen/FfGlue.v, Gen/FfgGlue.v: a Go loop becomes a
+   fixpoint on its iteration count or on explicit fuel); each equals the model used above ---- *)
+Theorem C05_glue_is_the_source :
+  FfGlue.One = FfLimbs.one /\
+  (forall x e, FfGlue.Element_Exp x e = FfLimbs.exp x e) /\
+  (forall x, FfGlue.Element_Inverse FfLimbs.outer_fuel FfLimbs.inner_fuel FfLimbs.inner_fuel x = FfGlueEq.of_opt (FfLimbs.inverse x)) /\
+  (forall x y, FfGlue.Element_Div FfLimbs.outer_fuel FfLimbs.inner_fuel FfLimbs.inner_fuel x y = FfGlueEq.of_opt (FfLimbs.div x y)) /\
+  (forall a, FfGlue.BatchInvert FfLimbs.outer_fuel FfLimbs.inner_fuel FfLimbs.inner_fuel a = FfGlueEq.of_opt (FfLimbs.batchInvert a)).
+Proof.
+  exact (conj FfGlueEq.gen_One_eq (conj FfGlueEq.gen_Exp_eq (conj FfGlueEq.gen_Inverse_eq
+        (conj FfGlueEq.gen_Div_eq FfGlueEq.gen_BatchInvert_eq)))).
+Qed.
+
+(* the fuel of the translated Inverse loop is never exhausted on canonical elements *)
+Theorem C05_glue_inverse_terminates : forall x, FfLimbs.canon x ->
+  exists z, FfGlue.Element_Inverse FfLimbs.outer_fuel FfLimbs.inner_fuel FfLimbs.inner_fuel x = GoGlue.Done z /\ FfLimbs.inverse x = Some z.
+Proof. exact FfGlueEq.gen_Inverse_canon. Qed.
+
 Print Assumptions C05_asm_mul_correct.
 Print Assumptions C05_asm_adx_mul_correct.
 Print Assumptions C05_asm_add_correct.
@@ -283,3 +303,5 @@ Print Assumptions C05_exp.
 Print Assumptions C05_butterfly.
 Print Assumptions C05_constants.
 Print Assumptions C05_div_by_zero.
+Print Assumptions C05_glue_is_the_source.
+Print Assumptions C05_glue_inverse_terminates.
